@@ -66,7 +66,13 @@ def judge_listing(ctx, ws, text, origin, elf_bytes=None, force_reuse=False, leve
 def _judge_listing(ctx, ws, text, origin, elf_bytes=None, force_reuse=False):
     if ctx.rng.random() < 0.25:
         failing_run(ctx, ws)
-    p = ws.write("in.s", text)
+    eol = ctx.rng.choice(["\n"] * 12 + ["\r\n", "\r\n", "\r"])
+    if eol != "\n" and "\r" not in text:
+        ctx.event("listings_saved_with_other_line_endings")
+        origin += " [CRLF]" if eol == "\r\n" else " [CR]"
+        p = ws.write("in.s", text.replace("\n", eol).encode())
+    else:
+        p = ws.write("in.s", text)
     r = objd.real_stream(ws, p)
     ctx.ran()
     rinsts, stats = refline.read_listing(text)
